@@ -136,7 +136,7 @@ def _resolve_times(places, times, hs, t0, tottime, H):
             for _ in range(abs(u)):
                 v = float(np.nextafter(v, np.inf if u > 0 else -np.inf))
         elif k == "int":
-            v = float(math.floor(t0) + p["v"])  # callers write save times as plain integers
+            v = float(math.floor(t0) + p["v"]) if math.isfinite(t0) else float("nan")  # plain integers
         elif k == "lin":
             v = t0 + p["j"] * (tk(p["n"]) - t0) / p["m"]
         elif k == "stop":
@@ -331,6 +331,8 @@ class Executor:
         if not objs:
             return ("init", 0)
         k = k % len(objs)
+        if not is_finite_field(objs[k]):
+            return ("init", 0)  # blown-up result of an unstable run: not an admissible input
         return ("res", j, k)
 
     def _faults_for(self, i):
